@@ -106,6 +106,217 @@ def _unstable(prog, sources):
     return c01.unstable_chunks_below(da, prog, sources)
 
 
+
+# --------------------------------------------------------------------------
+# fam_chunk_rule: the Gallina advertised-chunks rule `pchunks` (coq/theories/ProgChunks.v) tied to dask_array
+CHUNK_HEADER = "From DA Require Import ProgChunks.\nOpen Scope Z_scope.\n"
+CHUNK_CASE_TYPE = "nat * list (list nat * list (list Z)) * prog * list (list nat * bool)"
+# tbl = the chunks dask_array advertises for EVERY node (path -> chunks; it is the oracle of the rule: read at leaves and
+# where operands disagree); every listed node: pchunks of the sub-program at that path = the node's advertised chunks
+# (or None when the sub-program contains an operation the rule does not model)
+# kind 0: the rule agrees at every listed node AND the advertised chunks satisfy the oracle hypothesis orc_wf of theorem
+# C03_advertised_chunks_are_a_layout (at every node: a layout of the node's advertised shape pshape); kinds 1 / 2: the halves
+CHUNK_CHECK = ("Definition chk (c : nat * list (list nat * list (list Z)) * prog * list (list nat * bool)) : bool :=\n"
+               "  let '(k, tbl, p, es) := c in\n"
+               "  match k with O => nodes_ok tbl p es && orc_wf_b (orc_of tbl) p | 1 => nodes_ok tbl p es\n"
+               "             | _ => orc_wf_b (orc_of tbl) p end%nat.\n")
+
+
+def _chunk_children(q):
+    """children in the order c01.to_coq prints them"""
+    t = q[0]
+    if t == "elem":
+        return list(q[2:])
+    if t == "where":
+        return list(q[1:])
+    if t in ("concat", "stack"):
+        return list(q[1])
+    if t in ("reduce", "cum"):
+        return [q[2]]
+    if t in ("src", "nparray", "ones", "arange", "const"):
+        return []
+    return [q[1]]
+
+
+def _chunk_unmodelled(q):
+    """the operation of node q that ProgChunks.pchunks does not model (None when it does)"""
+    t = q[0]
+    if t in ("take", "reshape"):
+        return t
+    if t == "rechunk" and not (isinstance(q[2], tuple) and all(isinstance(c, tuple) for c in q[2])):
+        return "rechunk-implicit"
+    if t == "repeat" and q[2] > 3:
+        return "repeat>3"
+    return None
+
+
+
+def _chunk_rule_directed():
+    """small-scope directed programs for the chunk rule: layouts WITH ZERO-SIZE CHUNKS (which the generator's leaves never
+    have) under every modelled operation; yields (prog, sources)"""
+    S = slice
+    lay1 = [(5,), (2, 3), (0, 5), (3, 0, 2), (0, 3, 0, 2), (1, 1, 3), (5, 0), (4, 1)]
+    src1 = [(np.arange(5, dtype="int64") * 3 % 7 - 2, (c,)) for c in lay1]
+    for k in range(len(src1)):
+        x = ("src", k)
+        un = [("slice", x, (S(1, None),)), ("slice", x, (S(None, -1),)), ("slice", x, (S(None, None, 2),)), ("slice", x, (S(None, None, -1),)),
+              ("slice", x, (S(4, 1, -2),)), ("slice", x, (S(2, 2),)), ("slice", x, (None, S(1, 4))), ("slice", x, (S(3, None), None)),
+              ("slice", x, (S(None, None, -2),)), ("slice", x, (S(-2, None),)), ("slice", x, (S(0, 5),)), ("slice", x, (S(3, 0, -1),)),
+              ("flip", x, 0), ("roll", x, 2, 0), ("roll", x, -2, 0), ("roll", x, 0, 0), ("roll", x, 7, 0), ("roll", x, 5, 0),
+              ("repeat", x, 0, 0), ("repeat", x, 1, 0), ("repeat", x, 2, 0), ("repeat", x, 3, 0), ("diff", x, 0),
+              ("cum", "cumsum", x, 0, "sequential"), ("reduce", "sum", x, (0,), True, None), ("reduce", "max", x, (0,), False, None),
+              ("expand", x, 0), ("expand", x, 1), ("rechunk", x, ((2, 0, 3),)), ("broadcast_to", x, (2, 5)), ("broadcast_to", x, (5,)),
+              ("elem", "negative", x), ("elem", "add", x, ("const", 2)), ("flip", ("flip", x, 0), 0),
+              ("diff", ("slice", x, (S(None, None, -1),)), 0), ("repeat", ("roll", x, 1, 0), 3, 0)]
+        for q in un:
+            yield q, src1
+        for j in range(len(src1)):
+            y = ("src", j)
+            yield ("elem", "add", x, y), src1
+            yield ("concat", (x, y), 0), src1
+            yield ("stack", (x, y), 0), src1
+            yield ("stack", (x, y), 1), src1
+            if j % 3 == 0:
+                yield ("where", ("elem", "greater", x, ("const", 0)), x, y), src1
+                yield ("concat", (x, ("slice", y, (S(2, 2),)), y), 0), src1
+    lay2 = [((2,), (3,)), ((1, 1), (1, 2)), ((0, 2), (3, 0)), ((2, 0), (0, 1, 2)), ((1, 0, 1), (2, 1))]
+    src2 = [(np.arange(6, dtype="int64").reshape(2, 3) * 5 % 7 - 3, c) for c in lay2]
+    for k in range(len(src2)):
+        x = ("src", k)
+        un = [("T", x, (1, 0)), ("slice", x, (S(None), S(None, None, -1))), ("slice", x, (1, S(1, None))), ("slice", x, (S(0, 1), S(None))),
+              ("squeeze", ("slice", x, (S(0, 1), S(None))), 0), ("flip", x, 1), ("flip", x, 0), ("roll", x, 1, 1), ("repeat", x, 2, 1),
+              ("repeat", x, 3, 0), ("diff", x, 1), ("reduce", "sum", x, (1,), False, None), ("reduce", "sum", x, None, True, None),
+              ("reduce", "min", x, (0,), True, None), ("cum", "cumsum", x, 1, "blelloch"), ("expand", x, 1), ("broadcast_to", x, (3, 2, 3)),
+              ("slice", x, (None, S(None), 2)), ("slice", x, (S(None, None, -1), S(2, 0, -1)))]
+        for q in un:
+            yield q, src2
+        for j in range(len(src2)):
+            y = ("src", j)
+            yield ("elem", "multiply", x, y), src2
+            yield ("concat", (x, y), 0), src2
+            yield ("concat", (x, y), 1), src2
+            yield ("stack", (x, y), 1), src2
+            yield ("elem", "add", ("T", x, (1, 0)), ("T", y, (1, 0))), src2
+
+
+def fam_chunk_rule(chk, da):
+    import random as _random
+    import c01
+    from common import coq_eval_cases, clist, cnat, cbool
+    thorough = chk.tier == "thorough"
+    rng = _random.Random(f"{chk.pid}-chunk-rule-{chk.seed}")          # own stream: the other families keep theirs
+    modelled_ops = [o for o in c01.SEM_OPS if o not in ("take", "reshape")]
+    cases, meta = [], []
+
+    def literal_layout(cs):
+        return clist(cs, clist)
+
+    def one(prog, sources, want):
+        if np.asarray(want).dtype.kind not in "iub":
+            chk.count("chunk-rule:skipped:float")
+            return
+        try:
+            lit = c01.to_coq(prog, sources, {})
+        except c01.OutOfSubset as e:
+            chk.count("chunk-rule:skipped:" + str(e).split(" ")[0])
+            return
+        if len(lit) > 40000:
+            chk.count("chunk-rule:skipped:large")
+            return
+        got = {}
+
+        def hook(q, out):
+            got[id(q)] = tuple(tuple(int(v) for v in c) for c in out.chunks) if hasattr(out, "chunks") else ()
+        try:
+            with warnings.catch_warnings():
+                warnings.simplefilter("ignore")
+                progs.build(prog, da, sources, memo={}, hooks=hook)
+        except Exception:  # noqa: BLE001
+            chk.count("chunk-rule:skipped:raises")                  # C01/C08's business
+            return
+        tbl, checks = [], []
+
+        def walk(q, path):
+            un = _chunk_unmodelled(q)
+            for i, k in enumerate(_chunk_children(q)):
+                un = walk(k, path + [i]) or un
+            name = q[0] if q[0] != "reduce" else "reduce:" + q[1]
+            if q[0] in ("elem", "where", "stack"):
+                # does the rule read the oracle here (operands disagree) or is it deterministic (array operands agree)?
+                kc = [got[id(k)] for k in _chunk_children(q) if k[0] != "const" and got[id(k)] != ()]
+                chk.count(f"chunk-rule:{q[0]}:" + ("deterministic" if all(c == kc[0] for c in kc) else "oracle"))
+            if q[0] != "const":
+                tbl.append(f"({clist(path, cnat)}, {literal_layout(got[id(q)])})")
+                checks.append((path, un is None, name))
+            return un
+        walk(prog, [])
+        for path, ok, name in checks:
+            chk.count(("chunk-rule:node:" if ok else "chunk-rule:unmodelled-below:") + name)
+        for q in progs.all_nodes(prog):
+            un = _chunk_unmodelled(q)
+            if un:
+                chk.count("chunk-rule:unmodelled:" + un)
+        es = clist([(p, ok) for p, ok, _ in checks], lambda e: f"({clist(e[0], cnat)}, {cbool(e[1])})")
+        cases.append(f"(0%nat, {clist(tbl, str)}, {lit}, {es})")
+        meta.append((prog, sources, lit, tbl, checks))
+        chk.count("chunk-rule:programs")
+        chk.case(("chunk-rule", progs.show(prog), repr([(s[0].shape, s[1]) for s in sources])), nontrivial=len(checks) > 1)
+
+    directed = list(_chunk_rule_directed())
+    if not thorough:
+        directed = rng.sample(directed, 220)
+    for prog, sources in directed:
+        try:
+            want = progs.eval_np(prog, sources)
+        except Exception:  # noqa: BLE001
+            chk.count("chunk-rule:directed:numpy-raises")
+            continue
+        chk.count("chunk-rule:directed")
+        one(prog, sources, want)
+    n = 3000 if thorough else 320
+    for prog, sources, want in progs.gen_programs(rng, n, ops=modelled_ops):
+        one(prog, sources, want)
+    for prog, sources, want in progs.gen_programs(rng, n // 6, ops=c01.SEM_OPS):      # with take / reshape: the rule must be None
+        one(prog, sources, want)
+    mism, _log = coq_eval_cases(CHUNK_HEADER, CHUNK_CASE_TYPE, CHUNK_CHECK, cases, chunk=300 if thorough else 60)
+    chk.count("chunk-rule:coq_cases", len(cases))
+    # localise every mismatch to the lowest node whose rule disagrees
+    again, again_meta = [], []
+    for i in mism:
+        prog, sources, lit, tbl, checks = meta[i]
+        for path, ok, name in checks:
+            again.append(f"(1%nat, {clist(tbl, str)}, {lit}, [({clist(path, cnat)}, {cbool(ok)})])")
+            again_meta.append((i, path, ok, name))
+        again.append(f"(2%nat, {clist(tbl, str)}, {lit}, [])")
+        again_meta.append((i, None, True, "oracle-hypothesis"))
+    bad, _log = coq_eval_cases(CHUNK_HEADER, CHUNK_CASE_TYPE, CHUNK_CHECK, again, chunk=60)
+    reported = set()
+    for j in bad:
+        i, path, ok, name = again_meta[j]
+        if path is None:
+            # some node's advertised chunks are not a layout of the shape the reference semantics gives that node
+            prog, sources, lit, tbl, checks = meta[i]
+            reported.add(i)
+            chk.tie_break("ProgChunks.advertised-chunks-not-a-layout-of-pshape",
+                          {**progs.describe(prog, sources), "table": tbl[:40], "coq": lit[:3000]})
+            continue
+        # a node above a failing node fails for the same reason when its rule reads the child's result: report the deepest only
+        if any(again_meta[k][0] == i and again_meta[k][1] is not None and len(again_meta[k][1]) > len(path)
+               and again_meta[k][1][:len(path)] == path for k in bad):
+            continue
+        prog, sources, lit, tbl, checks = meta[i]
+        reported.add(i)
+        chk.tie_break("ProgChunks.pchunks-vs-advertised:" + name,
+                      {**progs.describe(prog, sources), "path": path, "expected_modelled": ok, "table": tbl[:40], "coq": lit[:3000]})
+    for i in mism:
+        if i not in reported:
+            prog, sources, lit, tbl, checks = meta[i]
+            chk.tie_break("ProgChunks.pchunks-vs-advertised", {**progs.describe(prog, sources), "table": tbl[:40], "coq": lit[:3000]})
+    chk.traces_validated += sum(len(m[4]) for k, m in enumerate(meta) if k not in set(mism))
+    chk.extra["chunk_rule_family"] = {"programs": len(cases), "nodes_checked": sum(len(m[4]) for m in meta),
+                                      "model_mismatches": len(mism)}
+
+
 def replay(path):
     print(open(path).read())
 
@@ -114,9 +325,14 @@ def run(chk: Check):
     import dask_array as da
     chk.rule = ("generated programs x {optimize-graph on, off}: every advertised key is executed and the block's shape and dtype are "
                 "compared with .chunks / .dtype per block index (unknown sizes: block count only), the assembled result with "
-                ".shape / .dtype; programs that raise are C01/C08's business and are skipped (counted); non-trivial = more than one block")
+                ".shape / .dtype; programs that raise are C01/C08's business and are skipped (counted); non-trivial = more than one block.  "
+                "fam_chunk_rule: programs of the integer subset are printed as ProgSem.prog literals together with the chunks dask_array "
+                "advertises for every node; Coq checks by vm_compute that the advertised-chunks rule ProgChunks.pchunks (oracle = the "
+                "advertised chunks, read at leaves and where operands disagree) gives exactly the advertised chunks at every node, and "
+                "None exactly on the sub-programs containing an unmodelled operation (take, reshape, implicit rechunk)")
     chk.run_proofs()
     import c01
+    fam_chunk_rule(chk, da)
     for tag, prog, sources in c01.CORPUS:
         if tag in ("F17", "F20", "F25", "F33c"):
             run_program(chk, da, prog, sources, None, True)
